@@ -8,7 +8,7 @@ import (
 )
 
 // ---------------- scenario generators ----------------
-var nameAlphabet = []string{"a", "b", "c", "d"}
+var nameAlphabet = []string{"a", "b", "c", "d", "ä"}
 var subAlphabet = []string{"", "", "", "", "", "s", "t", "S", "k=1", "k=2"}
 
 type gctx struct {
@@ -99,7 +99,7 @@ func (c *gctx) addFunc(in, out []Field, inForm, outForm int) int {
 		return false
 	}
 	// NewValueSet needs distinct names (it builds a struct with one field per name)
-	if c.built && c.r.chance(35) && len(in) > 0 && len(out) > 0 && !dupName(in) && !dupName(out) {
+	if c.built && c.r.chance(35) && (len(in) > 0 || len(out) > 0) && !dupName(in) && !dupName(out) {
 		// a function assembled with BuildFunc: struct in, struct out, error
 		d.Built, d.InForm, d.OutForm, d.Err = true, FStruct, FStruct, true
 	}
@@ -690,7 +690,7 @@ func (c *gctx) caseDup(opts []Opt) []Opt {
 		if (o.Kind == "named" || o.Kind == "namedsub") && len(o.Vals) == 1 && o.Vals[0] != nil && o.Name != "" {
 			dup := o
 			if o.Name == strings.ToLower(o.Name) {
-				dup.Name = strings.ToUpper(o.Name[:1]) + o.Name[1:]
+				dup.Name = strings.ToUpper(o.Name)
 			} else {
 				dup.Name = strings.ToLower(o.Name)
 			}
@@ -929,6 +929,9 @@ func genOnceScenario(c *gctx) {
 		if i != base.Target && r.chance(60) {
 			d.Once = true
 			anyOnce = true
+		}
+		if i == base.Target && r.chance(25) {
+			d.Once = true // a run-once TARGET (with or without results): later calls return its memo
 		}
 	}
 	_ = anyOnce
@@ -1299,8 +1302,76 @@ func genC07(c *gctx, f2 bool) {
 	}
 }
 
+// C05 family "diamond": acyclic, satisfiable MULTI-input converters whose results are
+// needed on several paths through different vertices:
+//   inputs X, Y, Z;  join(X, Y) -> T;  render(Z, T) -> U;  target {A T, B U}
+// A is derived through join, B through render, and render needs a T that is again
+// derived through join (labels of the T's vary: named A / another name / type-only).
+func genC05Diamond(c *gctx) {
+	r := c.r
+	tys := append([]int(nil), concreteTys...)
+	for i := len(tys) - 1; i > 0; i-- {
+		j := r.intn(i + 1)
+		tys[i], tys[j] = tys[j], tys[i]
+	}
+	X, Y, Z, T, U := tys[0], tys[1], tys[2], tys[3], tys[4]
+	lab := func(ty int) Field {
+		f := Field{Ty: ty}
+		if r.chance(50) {
+			f.Name = nameAlphabet[r.intn(len(nameAlphabet))]
+		}
+		return f
+	}
+	a := Field{Name: "a", Ty: T}
+	if r.chance(30) {
+		a = Field{Ty: T}
+	}
+	b := Field{Name: "b", Ty: U}
+	ti := c.addFunc([]Field{a, b}, c.fields(FStruct, r.intn(2)), FStruct, FStruct)
+	c.sc.Funcs[ti].Once, c.sc.Funcs[ti].Err = false, false
+	jout := Field{Ty: T}
+	if r.chance(40) {
+		jout = a
+	}
+	jin := []Field{{Ty: X}, {Ty: Y}}
+	join := c.addFunc(jin, []Field{jout}, c.formFor(jin), c.formFor([]Field{jout}))
+	rt := Field{Ty: T} // render's T: another vertex than the target's
+	if a.Name == "" || r.chance(30) {
+		rt = Field{Name: "c", Ty: T}
+	}
+	rin := []Field{{Ty: Z}, rt}
+	if r.chance(50) {
+		rin = []Field{rt, {Ty: Z}}
+	}
+	rout := lab(U)
+	if rout.Name != "" {
+		rout.Name = "b"
+	}
+	render := c.addFunc(rin, []Field{rout}, c.formFor(rin), c.formFor([]Field{rout}))
+	for _, fi := range []int{join, render} {
+		c.sc.Funcs[fi].Once, c.sc.Funcs[fi].Err = false, r.chance(20)
+	}
+	opts := []Opt{c.exactOpt(Field{Ty: X}), c.exactOpt(Field{Ty: Y}), c.exactOpt(Field{Ty: Z})}
+	convs := []int{join, render}
+	if r.chance(50) {
+		convs = []int{render, join}
+	}
+	if r.chance(30) {
+		// a third consumer of join's result
+		w := tys[5]
+		convs = append(convs, c.addFunc([]Field{{Ty: T}, {Ty: X}}, []Field{{Ty: w}}, FPos, FPos))
+		c.sc.Funcs[convs[len(convs)-1]].Once = false
+	}
+	opts = append(opts, c.convOpts(convs)...)
+	shuffleOpts(r, opts)
+	for i := 0; i < 6; i++ { // six order tapes per scenario
+		c.sc.Ops = append(c.sc.Ops, Op{Kind: "call", Target: ti, Opts: opts})
+	}
+}
+
 func init() {
 	startWatchdog(&wdIdx, &wdLast)
+	register(resolverStream("c05diamond", genC05Diamond))
 	register(resolverStream("namesub", genNameSubFamily))
 	register(resolverStream("c07f1", func(c *gctx) { genC07(c, false) }))
 	register(resolverStream("c07f2", func(c *gctx) { genC07(c, true) }))
